@@ -60,7 +60,7 @@ func genC10(o *common.Opts) []runnable {
 // directedC10: DESIGN.md Appendix A 7.15 (both faces) and the three related shapes.
 func directedC10() []runnable {
 	mk := func(depth, levels int, sites []string, f func(c *VarCase)) *VarCase {
-		c := &VarCase{Kind: "v", Mode: "directed", Depth: depth, Levels: levels, N: "VN", Probes: []string{"VN", "VM"}, SiteList: sites}
+		c := &VarCase{Kind: "v", Mode: "directed", Depth: depth, Levels: levels, N: "VN", Names: []string{"VN"}, Probes: []string{"VN", "VM"}, SiteList: sites}
 		c.Chain = make([]Level, levels)
 		f(c)
 		return c
@@ -124,9 +124,17 @@ func directedC11() []runnable {
 		&NICase{Kind: "n", GVars: append(append([]Entry{}, lists...), lit("GD1", "d1"), lit("GD2", "d2")), Tasks: []NITask{
 			{Name: "t0", Vars: []Entry{shv("W", "echo w")}},
 			{Name: "t1", Dir: "d1", DirVar: true, Vars: []Entry{shv("P", "pwd")}}}, Order: []int{0, 1}, Target: 1},
-		&NICase{Kind: "n", GVars: lists, Tasks: []NITask{
+		&NICase{Kind: "n", GVars: lists, GEnv: []Entry{callVarGlobalEnv()}, Tasks: []NITask{
 			{Name: "t0", Caller: true, Leaf: true, Tag: "A", Val: "one"},
 			{Name: "t1", Caller: true, Leaf: true, Tag: "B", Val: "two"}}, Order: []int{0, 1}, Target: 1},
+		// task-level dotenv: the same relative file name in two task directories
+		&NICase{Kind: "n", GVars: lists, Tasks: []NITask{
+			{Name: "t0", Dir: "d1", Dotenv: true},
+			{Name: "t1", Dir: "d2", Dotenv: true}}, Order: []int{0, 1}, Target: 1},
+		&NICase{Kind: "n", GVars: lists, Combine: "deps", Tasks: []NITask{
+			{Name: "t0", Dir: "d1", Dotenv: true},
+			{Name: "t1", Dotenv: true},
+			{Name: "t2", Dir: "d2", Dotenv: true}}, Order: []int{0, 1, 2}, Target: 2},
 		// a task with templated defer: entries called twice with different vars: by two Run calls,
 		// through cmds:, through a for: loop, and concurrently through deps:
 		dfrCase(lists, ""), dfrCase(lists, "cmds"), dfrCase(lists, "for"), dfrCase(lists, "deps"),
@@ -220,7 +228,7 @@ func Main(args []string) {
 	}
 	obs := common.NewObs("vars", o.Seed)
 	// names the generated tasks use must not leak in from the harness's own environment
-	for _, n := range []string{"VN", "VM", "VQ", "VR", "EN", "EM", "GE", "E1", "E2", "GT", "GS", "DTAG", "TASK", "ALIAS", "TASK_X_ENV_PRECEDENCE"} {
+	for _, n := range []string{"VN", "VM", "VQ", "VR", "EN", "EM", "GE", "E1", "E2", "GT", "GS", "DTAG", "DV", "GRT", "TASK", "ALIAS", "TASK_DIR", "ROOT_DIR", "ROOT_TASKFILE", "TASKFILE", "TASKFILE_DIR", "USER_WORKING_DIR", "TASK_X_ENV_PRECEDENCE"} {
 		_ = os.Unsetenv(n)
 	}
 	var cases []runnable
